@@ -284,6 +284,15 @@ def partitions(tier, seed):
     parts = []
     P = "harness.c14:printers"
     E = "harness.c14:events_printer"
+    # every primitive type on its own, every value of its width (signed types, enumerations, handles: the hex
+    # column must be the field's bytes and the value column its text form for all of them)
+    for k in sp.prim_keys():
+        d = sp.L()["types"][k]
+        if d.get("bits") or d.get("rc"):
+            continue  # their bit rows multiply the paths; covered in shapes below and by C17 / C18
+        if quick and d["width"] > 2 and not d["signed"]:
+            continue  # wide unsigned types: thorough tier (their decimal / hex value texts are solver-heavy)
+        parts.append(sp.S(P, "C14", k, d["width"], budget=90, cfg={"warn": True}))
     for cc in ccs:
         for label, data in G.commands(cc, minimal=quick):
             lab = "%s-%s" % (sp.cc_name(cc), label)
@@ -300,7 +309,9 @@ def partitions(tier, seed):
             for p in size_variants(E, "C14", sp.cmd_key(), lab + "/events-printer-warn", data, tr, cfg={"warn": True}, budget=40)[:1]:
                 parts.append(p)
             # one leaf at a time over its whole width, warn mode (value warnings, symbolic value texts)
-            for x in [x for x in tr if x[4] == "leaf" and sp.L()["types"][x[1]]["name"] != "BYTE"][:3]:
+            cand = [x for x in tr if x[4] == "leaf" and sp.L()["types"][x[1]]["name"] != "BYTE"]
+            cand.sort(key=lambda x: not sp.L()["types"][x[1]]["signed"])  # signed fields first
+            for x in cand[:3]:
                 parts.append(sp.M(P, "C14", sp.cmd_key(), "%s-warn/value@%s" % (lab, x[0]), data, list(range(x[2], x[2] + x[3])), budget=60, cfg={"warn": True}))
         for label, enc, data in G.responses(cc, minimal=quick):
             lab = "%s-%s" % (sp.cc_name(cc), label)
